@@ -240,7 +240,7 @@ def build_dataset(case, events):
         def getitem_class(self, idx, ctx=None):
             events.append(("class", int(idx), type(idx).__name__))
             if kind == "computed":
-                return vals[0] + idx % ncls if False else (idx * case["label_mul"] + case["label_add"]) % ncls
+                return (idx * case["label_mul"] + case["label_add"]) % ncls      # type follows the type of idx
             return self.store[idx]                                              # no clone: like tests_util's dataset
 
         def getshape_class(self):
@@ -262,7 +262,11 @@ def mutated(ds, pristine):
             out.append(f"x[{k}]")
     if hasattr(ds.store, "clone"):
         if not torch.equal(ds.store, pristine[1]):
-            out.append("labels")
+            if ds.store.ndim == 2:
+                out.append("stored label rows were overwritten, their sums are now "
+                           + str([round(float(v), 4) for v in ds.store.double().sum(1)]))
+            else:
+                out.append("labels")
     elif list(ds.store) != pristine[1]:
         out.append("labels")
     return out
@@ -314,6 +318,8 @@ def classify(e, stage):
         return "NotImplementedError"
     if isinstance(e, AssertionError):
         return "AssertionError@" + stage
+    if isinstance(e, TypeError) and stage == "getitem" and "NoneType" in str(e) and "float()" in str(e):
+        return "TypeError@beta(None)"
     return type(e).__name__ + "@" + stage + ": " + str(e)[:160]
 
 
@@ -331,11 +337,11 @@ def run_impl(case):
     ds, pristine = build_dataset(case, events)
     kw = {}
     for k in ("mixup_p", "cutmix_p", "mixup_alpha", "cutmix_alpha"):
-        if case.get(k) is not None or case.get("pass_none", False):
+        if case.get(k) is not None:
             kw[k] = case.get(k)
     if case["unify"] is not None:
         kw["mixup_unify_shapes_mode"] = case["unify"]
-    if case["seed"] is not None or case.get("pass_none", False):
+    if case["seed"] is not None:
         kw["seed"] = case["seed"]
     obs = {"result": "ok", "total_p": None}
     try:
@@ -373,7 +379,7 @@ def run_impl(case):
         obs["n_items"] = len(items)
 
         # the three requests (and a repetition) under the same seed; alias datasets are restored first
-        if case["seed"] is not None and not case.get("alias_x", False):
+        if case["seed"] is not None and not case.get("alias_x", False) and any(t in ("x", "class") for t in toks):
             def fetch(m):
                 return ModeWrapper(dataset=w, mode=m)[idx]
             try:
@@ -432,6 +438,10 @@ def expected_error(case, obs):
         return (case["cutmix_p"] or 0.0) > 0.0 or case["unify"] not in (None, "pad_or_cut_end")
     if r == "AssertionError@getitem":
         return case["unify"] is None and len({tuple(s) for s in case["shapes"]}) > 1
+    if r == "TypeError@beta(None)":
+        # cutmix-only configuration (nothing of it is implemented) and apply == cutmix_p == total_p exactly:
+        # the draw is not < cutmix_p, so the mixup branch runs with mixup_alpha None
+        return not case["mixup_p"] and (case["cutmix_p"] or 0.0) > 0.0
     return False
 
 
@@ -566,7 +576,8 @@ def oracle(case, obs):
     if alias:
         return None        # outside the claim (ASSUMPTIONS); what happens is recorded in the input distribution
     if obs["mutated"]:
-        return f"the wrapped dataset was modified in place: {obs['mutated']} (x tensors are handed out as clones)"
+        return (f"the wrapped dataset was modified in place: {obs['mutated']} (getitem_x hands out clones, getitem_class "
+                f"the stored label like tests_util's ClassificationDataset)")
     exp_layout = "single" if len(case["tokens"]) == 1 else "tuple"
     if obs["layout"] != exp_layout or obs["n_items"] != len(case["tokens"]):
         return f"returned {obs['layout']} with {obs['n_items']} items for mode {case['tokens']}"
@@ -589,7 +600,7 @@ def oracle(case, obs):
         return f"sample {i}: no (partner, weight) the dataset was asked for explains the returned items: {msg}"
     if msg:
         return msg
-    if case["seed"] is not None:
+    if case["seed"] is not None and any(t in ("x", "class") for t in case["tokens"]):
         if obs.get("views_agree") is not True:
             return f"seed {case['seed']}: 'x', 'class', 'x class', 'class x' and a repeated request disagree ({obs.get('views_agree')})"
         if obs.get("unpatched_same") is False:
@@ -616,7 +627,8 @@ def coq_label(row):
     return C("LVec", [q(v) for v in row[1]])
 
 
-OUTCOME = {"ok": 0, "AssertionError@getitem": 1, "NotImplementedError": 2, "AssertionError@ModeWrapper": 3}
+OUTCOME = {"ok": 0, "AssertionError@getitem": 1, "NotImplementedError": 2, "AssertionError@ModeWrapper": 3,
+           "TypeError@beta(None)": 6}
 
 
 def coq_applicable(case, obs):
